@@ -16,13 +16,13 @@ func init() { Registry["C12"] = checkC12 }
 
 var (
 	reFirstRead = regexp.MustCompile(`\(io\.Reader(At)?\)\.Read(At)?\(alloc:buf\[c:0:c:2\](,c:0)?\)#0`)
-	reFullRead  = regexp.MustCompile(`io\.ReadFull\(\$3,alloc:buf\[c:0:c:2\]\)#0`)
-	reEnvExpr   = regexp.MustCompile(`\(\*Protocol\)\.(DecodeEnveloped(@\d+)?\(\$0,\$2\)|readEnvelopeHeader(@\d+)?\(\$0,.*?,\$2\))#0\.`)
+	reFullRead  = regexp.MustCompile(`io\.(ReadFull\(\$3,alloc:buf\[c:0:c:2\]\)|ReadAtLeast\(\$3,alloc:buf\[c:0:c:2\],c:2\))#0`)
+	reEnvExpr   = regexp.MustCompile(`(\(\*Protocol\)\.DecodeEnveloped(@\d+)?\(\$0,\$2\)|\(protocol/stream\.Reader\)\.ReadEnvelopeBegin(@\d+)?\(\))#0\.`)
 )
 
 // c12Inline: helpers named by the frozen expectations stay calls; any other
 // unexported helper of the package is explored in place.
-var c12Inline = inlineHelpers("readEnvelopeHeader", "readStrictEnvelope", "readNonStrictEnvelope", "readStrictNameType", "readNonStrictNameType", "readBytes", "read", "discard", "fixedWidth", "writeField", "realWriteMapItem", "returnStreamReader", "returnStreamWriter")
+var c12Inline = inlineHelpers("readStrictEnvelope", "readNonStrictEnvelope", "readStrictNameType", "readNonStrictNameType", "readBytes", "read", "discard", "fixedWidth", "writeField", "realWriteMapItem", "returnStreamReader", "returnStreamWriter")
 
 // classifyArms reduces each success path of a request decoder to
 // "sorted framing conditions => responder".
@@ -214,20 +214,14 @@ func checkC12(c *core.Ctx, l *core.Ledger) {
 		ds := compareArmTables(t1, t2)
 		l.Check(len(ds) == 0, "CLASSIFY", "siblings-agree", "", "both request decoders select the same responder for every (first byte, bytes available)", "the two request decoders classify differently: "+strings.Join(ds, "; "))
 	}
-	if f := fn("Protocol.readEnvelopeHeader"); f != nil {
-		tr, _ := core.TraceSeqsInline(f, func(call ssa.CallInstruction) bool { return true }, c12Inline)
-		got := normRepl.Replace(core.SeqString(tr))
-		want := "[call:inv:ReadEnvelopeBegin($1;) !((protocol/stream.Reader).ReadEnvelopeBegin()#0.Type!=$2) ret((protocol/stream.Reader).ReadEnvelopeBegin()#0,(protocol/stream.Reader).ReadEnvelopeBegin()#1)]"
-		l.Add(core.Obligation{Rule: "CLASSIFY", Key: "readEnvelopeHeader", Pos: c.Rel(f.Pos()), Status: st(got == want), Detail: "succeeds only when the decoded header's type equals the expected type, returning that header: " + got})
-	}
 	// in ReadRequest the body is decoded between header and ReadEnvelopeEnd with the same stream reader
 	if rr != nil {
 		tr, _ := core.TraceSeqsInline(rr, func(call ssa.CallInstruction) bool { return true }, c12Inline)
 		ok := true
 		for _, s := range tr {
 			j := strings.Join(s, " ")
-			if strings.Contains(j, "readEnvelopeHeader") {
-				hi := strings.Index(j, "readEnvelopeHeader")
+			if strings.Contains(j, "call:inv:ReadEnvelopeBegin(") {
+				hi := strings.Index(j, "call:inv:ReadEnvelopeBegin(")
 				di := strings.Index(j, "call:inv:Decode(")
 				ei := strings.Index(j, "call:inv:ReadEnvelopeEnd(")
 				if !(hi < di && di < ei) {
@@ -239,7 +233,7 @@ func checkC12(c *core.Ctx, l *core.Ledger) {
 		}
 		l.Check(ok, "CLASSIFY", "ReadRequest.body-order", c.Rel(rr.Pos()), "header, then body.Decode, then ReadEnvelopeEnd on every enveloped arm; bare arms decode the body directly", "an arm of ReadRequest does not decode the body between envelope begin and end")
 	}
-	l.Floor("CLASSIFY", 5)
+	l.Floor("CLASSIFY", 4)
 
 	// 3. ECHO
 	echo := []struct {
